@@ -126,7 +126,9 @@ var _ = olvm.Transaction{}
 // sv:outside ETH (wrapped) totals: minting and refunding are decided by SV_C15_handlers; matured reward balances are claims on the rewards pool (mirror cells)
 // sv:goal the OLT ledger total (balances, pools, fee pool, escrows, contract and created addresses) does not increase and no stored amount is negative
 func SV_C02_more() {
+	svZeroRecordsInLean = true
 	m := svMoreKindEnv(false)
+	svZeroRecordsInLean = false
 	tx := m.sign(false)
 	sv.Assume(m.e.validate(tx))
 	l0 := m.e.ledger()
@@ -147,7 +149,12 @@ func SV_C02_more() {
 // sv:bounds as SV_C02_more
 // sv:outside as SV_C02_more; the validator operations of the evidence family charge the validator's stake address (the signer here)
 // sv:goal the holdings (every ledger cell owned by the party, both currencies) of every party that did not sign do not decrease
-func SV_C03_more() { svMoreC03(svMoreKindEnv(false)) }
+func SV_C03_more() {
+	svZeroRecordsInLean = true
+	m := svMoreKindEnv(false)
+	svZeroRecordsInLean = false
+	svMoreC03(m)
+}
 
 func svMoreC03(m *svMore) {
 	tx := m.sign(false)
